@@ -117,7 +117,7 @@ def execute_many_runs(case, t):
 
 SUBCHECKS = [
     SubCheck(name="bic_vs_definition", strategy=lambda: gen.e2e_config(betas=(0.0, 0.5, 2.0, 10.0, 50.0),
-                                                                       eps_values=(0, 0, 0, 1e-12, 1e-9, 1e-7, 1e-5, 3e-5, 1e-3), scales=True, scale_prob=0.3), execute=execute,
+                                                                       eps_values=(0, 0, 0, 1e-12, 1e-9, 1e-7, 1e-5, 3e-5, 1e-3, 0.01, 0.05), scales=True, scale_prob=0.3), execute=execute,
              budget={"quick": 128, "thorough": 3000}, shards={"quick": 16, "thorough": 8}, modes=E2E_MODES,
              min_nontrivial_fraction=0.3),
     SubCheck(name="bic_very_many_label_runs", enumerate=_many_runs, execute=execute_many_runs, exhaustive=False,
